@@ -93,7 +93,14 @@ LEVEL_NOTE = ("floating-point rounding is not modelled (tolerance run; ARZ fract
               "with fewer than two samples raise TypeError (FunctionSignal.dt is None), equal times ValueError, "
               "decreasing times give NaN in AVZ: a time grid has a positive step. n_RAC >= 1 of ArzMoveHyp always "
               "holds for dt > 0 (C07_arz_nRAC_ge_two). K12's band is now computed from had_shower_profile's own "
-              "defaults (upper edge 2.96071432 GeV, not 2.9607). Index off-by-ones: a "
+              "defaults (upper edge 2.96071432 GeV, not 2.9607). Harness artefacts: implementation calls run under an address-space cap; a MemoryError is reported "
+              "as a failing input only when the independent size predictor arz_size (N*dt_divider, n_RAC = 20 ns * "
+              "dt_divider/dt, n_Q) says every ARZ evaluation of that relation is small (< 1/4 of the 3e7 generator "
+              "bound), otherwise it is counted (capped_memory_not_reported / skipped_too_large) and never reported; "
+              "every stream that evaluates ARZ passes through the predictor. ZHS with an on-grid shower time whose "
+              "nominal shift is within one of the cut is K24 under a joint shift as well (the cut decision int() of "
+              "a float quotient flips). The fingerprints ignore logger calls, message texts and the names of local "
+              "variables (alpha-renamed), so only structural changes fail the translator closed. Index off-by-ones: a "
               "misplacement of the convolution (n_shift += n_Q_negative +- 1, decimation offset, shifted z or t_RAC "
               "grid, wrong LQ_tot) is caught on the implementation alone by the independent-quadrature oracle "
               "'position'; n_shift + 1 *before* t_RAC_vals is computed and n_extra + 1 move / extend the +-10 ns "
@@ -228,29 +235,44 @@ class SkipCase(Exception):
 MAX_SAMPLES = 30_000_000
 
 
+_PRED = {"max": 0.0}     # largest predicted ARZ size among the evaluations of the relation being checked
+
+
+def arz_size(theta, n, dt, N, energies):
+    """sub-samples the *unchanged* ARZ code allocates off the cone for a grid of N samples with step dt:
+    max(N*dt_divider, n_RAC = 20 ns*dt_divider/dt + 2) + n_Q over the showers with energy above 0.0786 GeV
+    (dt_divider = max(100 dt/max_length/z_to_t, dt/10 ps) + 1: unbounded near the critical energy and next to the
+    on-cone window; n_RAC dominates when the grid is shorter than 20 ns); 0 on the cone; inf where it divides by 0"""
+    worst = 0.0
+    try:
+        if not n > 1 or abs(theta - float(np.arccos(1 / n))) <= 4.6e-7:
+            return 0.0
+        for en in energies:
+            if not en > 0.0786:
+                continue
+            d, z_to_t, dz, xq, xn = arz_divider(en, dt, theta, n)
+            worst = max(worst, max((N + 1) * d, 2e-8 * d / dt + 2) + 2 * xn)
+    except (ZeroDivisionError, OverflowError, ValueError, FloatingPointError):
+        worst = float("inf")
+    if not worst == worst:
+        worst = float("inf")
+    _PRED["max"] = max(_PRED["max"], worst)
+    return worst
+
+
 def arz_predicted_samples(c, over=None):
-    """number of sub-samples N*dt_divider (+ n_Q) that the *unchanged* ARZ code needs off the cone: near the critical
-    energy max_length -> 0 and dt_divider = 100 dt / max_length / z_to_t grows without bound; such cases are kept
-    out of the generators (bound: MAX_SAMPLES)"""
+    """`arz_size` for case `c` with the overrides `over` that `values` understands"""
     o = over or {}
     psi = o.get("psi", psi_of(c))
-    theta = abs(psi)
-    n = n_of(c)
-    if abs(theta - float(np.arccos(1 / n))) <= 4.6e-7:
-        return 0
     E = o.get("E", c["E"])
     dt = float(o["times"][1] - o["times"][0]) if "times" in o else c["dt"]
-    N = (len(o["times"]) if "times" in o else c["N"]) + 1
-    worst = 0
-    for en in (E * o.get("em", c["em"]), E * o.get("had", c["had"])):
-        if not en > 0.0786:
-            continue
-        try:
-            d, z_to_t, dz, xq, xn = arz_divider(en, dt, theta, n)
-            worst = max(worst, N * d + xn * 2)
-        except (ZeroDivisionError, OverflowError, ValueError, FloatingPointError):
-            return float("inf")
-    return worst
+    N = len(o["times"]) if "times" in o else c["N"]
+    return arz_size(abs(psi), n_of(c), dt, N, (E * o.get("em", c["em"]), E * o.get("had", c["had"])))
+
+
+def arz_fits(kind, theta, n, dt, N, energies):
+    """gate for direct constructions of a signal object (everything that does not go through `values`)"""
+    return kind != "arz" or arz_size(abs(theta), n, dt, N, energies) <= MAX_SAMPLES
 
 
 def values(kind, c, **over):
@@ -573,6 +595,9 @@ def corr_arz_bookkeeping(run):
         t0 = t0_of(c)
         theta = abs(psi_of(c))
         n = n_of(c)
+        if not arz_size(theta, n, float(times[1] - times[0]), len(times), (energy,)) <= MAX_SAMPLES:
+            run.count("skipped_too_large")
+            continue
         sig = Z(times, mkp(1e6, 1, 0, c["z"]), theta, c["R"], ice_of(c), t0)
         with warnings.catch_warnings(), mem_cap():
             warnings.simplefilter("ignore")
@@ -731,6 +756,7 @@ def _one_sample_off(a, b, tol, L):
 def rel_check(run, kind, c, relation, deep=False):
     """evaluate one relation on the implementation; returns None when it holds, else a dict describing the
     failure (observed / expected / known-finding key)"""
+    _PRED["max"] = 0.0
     try:
         return _rel_check(kind, c, relation)
     except SkipCase:
@@ -742,7 +768,13 @@ def rel_check(run, kind, c, relation, deep=False):
         return None
     except Exception as e:   # any exception is a failure of "fails gracefully"
         if isinstance(e, KeyboardInterrupt):
-            raise      # (MemoryError under the 8 GiB cap of `mem_cap` is a failure of the code, not of the machine)
+            raise
+        if isinstance(e, MemoryError) and kind == "arz" and not _PRED["max"] <= MAX_SAMPLES / 4:
+            # the address-space cap of `mem_cap` was hit by an evaluation that the unchanged code also needs that
+            # much memory for (predicted size within a factor 4 of the generator bound, or unknown): an artefact of
+            # the harness, never reported
+            run.count("capped_memory_not_reported")
+            return None
         return {"observed": "exception %s" % repr(e)[:300], "expected": "a finite array of len(times)",
                 "what": "%s: %s raised %s" % (kind, relation, type(e).__name__),
                 "key": "K12" if in_k12(kind, c) else ("K25" if in_k25(kind, c) else None)}
@@ -796,6 +828,10 @@ def forms_check(kind, c):
     times = grid(cc)
     keep = times.copy()
     t0, psi = t0_of(cc), psi_of(cc)
+    ens = (Ei * cc["em"], Ei * cc["had"])
+    if not (arz_fits(kind, psi, n_of(cc), cc["dt"], cc["N"] + 4, ens)
+            and arz_fits(kind, psi, float(M.ice.index(cc["z"])), cc["dt"], cc["N"], ens)):
+        raise SkipCase("a form of this ARZ case needs more sub-samples than the generators allow")
 
     def bad(name, got, exp, tol=1e-12):
         got = np.asarray(got, dtype=float)
@@ -884,11 +920,14 @@ def _after_others(kind, cc, cls, times, psi, Ri, t0, Ei):
         o = dict(cc)
         o["N"] = cc["N"] + dN
         o["k"] = cc["k"] + dk
+        if not arz_fits(kind, psi * 0.97, float(ice_of(cc).index(cc["z"] * 0.9)), cc["dt"], o["N"],
+                        (Ei * dE * cc["had"], Ei * dE * cc["em"])):
+            continue
         cls(grid(o), mkp(Ei * dE, cc["had"], cc["em"], cc["z"] * 0.9), -psi * 0.97, Ri * dR, ice_of(cc), t0_of(o)).values
     # identical in everything but the vertex depth / the ice model (the index at the vertex, hence theta_c)
     for var in ({"z": cc["z"] * 0.5 - 3.0}, {"ice": ["uniform", 1.37]}):
         o = dict(cc, psi=psi, **var)
-        if kind == "arz" and not arz_predicted_samples(o) <= MAX_SAMPLES:
+        if not arz_fits(kind, psi, n_of(o), cc["dt"], cc["N"], (Ei * cc["em"], Ei * cc["had"])):
             continue      # (a micro-radian off the other cone: more sub-samples than the generators allow)
         cls(times, mkp(Ei, cc["em"], cc["had"], o["z"]), psi, Ri, ice_of(o), t0).values
     return cls(times, mkp(Ei, cc["em"], cc["had"], cc["z"]), psi, Ri, ice_of(cc), t0).values
@@ -1066,6 +1105,12 @@ def _rel_check(kind, c, relation):
         if _bad(v2, base, TOL[kind], sc):
             i = int(np.argmax(np.abs(v2 - base))) if v2.shape == base.shape else -1
             key = None
+            # K24 at an on-grid shower time: the cut decision int((t0-times[0])/dt) of a float quotient that is
+            # k -+ 1e-16 puts the placement exactly at the cut |shift| = N on one grid and one beyond it on the
+            # jointly shifted grid; recognised by: ZHS, on-grid, nominal shift within one of N, one trace exactly zero
+            if (kind == "zhs" and c["frac"] == 0 and abs(abs(c["k"] - N // 2) - N) <= 1
+                    and v2.shape == base.shape and (not np.any(base) or not np.any(v2))):
+                key = "K24"
             return {"observed": [float(base[i]), float(v2[i])] if i >= 0 else [len(base), len(v2)], "key": key,
                     "expected": "unchanged values", "what": "%s: shifting grid and shower time together changes the values" % kind}
         return None
